@@ -139,9 +139,10 @@ def write_evidence(prop, tier, level, coverage, assumptions, wall_s, violations,
 
 
 def save_replay(prop, name, payload):
+    import re as _re
     d = os.path.join(VERIF, "replays", prop)
     os.makedirs(d, exist_ok=True)
-    p = os.path.join(d, name + ".json")
+    p = os.path.join(d, _re.sub(r"[^A-Za-z0-9_.()-]+", "_", name) + ".json")
     with open(p, "w") as f:
         json.dump(payload, f, indent=1, default=str)
     return p
